@@ -37,7 +37,7 @@ func init() {
 		pkgPath:   "github.com/yandex/pandora/lib/mp",
 		module:    "C15Flow",
 		namespace: "Pandora.Gen.C15Flow",
-		imports:   []string{"Pandora.Model.C15Lock", "Pandora.Model.C15Flow"},
+		imports:   []string{"Pandora.Model.C15Lock", "Pandora.Model.C15Flow", "Pandora.Model.C15Prep"},
 		extra:     c15flowExtra,
 	}
 }
@@ -1180,6 +1180,167 @@ func (x *c15flowX) preLoop(fd *ast.FuncDecl) string {
 		x.rel(fd), strings.Join(ops, ", "))
 }
 
+// ---------------------------------------------------------------- round 6: prepareRequest, the tail of shoot
+
+// prepCode: every statement of `prepareRequest` must match one of the shapes below (declarations are skipped); the
+// result is the instruction list `Model.C15.PrepOp` interprets.
+func (x *c15flowX) prepCode(fd *ast.FuncDecl) string {
+	x.ctx = "prepareRequest"
+	var ops []string
+	reader := ""
+	for _, s := range fd.Body.List {
+		switch v := s.(type) {
+		case *ast.DeclStmt:
+			if gd, ok := v.Decl.(*ast.GenDecl); ok && gd.Tok == token.VAR && len(gd.Specs) == 1 {
+				if vs, ok := gd.Specs[0].(*ast.ValueSpec); ok && len(vs.Names) == 1 && len(vs.Values) == 0 {
+					reader = vs.Names[0].Name
+				}
+			}
+			continue
+		case *ast.IfStmt:
+			if x.isErrChk(s) {
+				ops = append(ops, ".chk")
+				continue
+			}
+			src := x.src(v.Cond)
+			if v.Init == nil && v.Else == nil && src == "reqParts.Body != nil" && len(v.Body.List) == 1 &&
+				x.src(v.Body.List[0]) == reader+" = bytes.NewReader(reqParts.Body)" {
+				ops = append(ops, ".bodyReader")
+				continue
+			}
+			if v.Init == nil && src == "g.base.Config.SSL" && len(v.Body.List) == 1 {
+				if eb, ok := v.Else.(*ast.BlockStmt); ok && len(eb.List) == 1 {
+					a1, ok1 := v.Body.List[0].(*ast.AssignStmt)
+					a2, ok2 := eb.List[0].(*ast.AssignStmt)
+					if ok1 && ok2 && x.src(a1.Lhs[0]) == "req.URL.Scheme" && x.src(a2.Lhs[0]) == "req.URL.Scheme" {
+						s1, k1 := x.strConst(a1.Rhs[0])
+						s2, k2 := x.strConst(a2.Rhs[0])
+						if k1 && k2 {
+							ops = append(ops, fmt.Sprintf("(.scheme %q %q)", s1, s2))
+							continue
+						}
+					}
+				}
+			}
+			if v.Init == nil && v.Else == nil && (src == `req.Host == ""` || src == `"" == req.Host` || src == "len(req.Host) == 0") && len(v.Body.List) == 1 &&
+				x.src(v.Body.List[0]) == "req.Host = getHostWithoutPort(g.base.Config.Target)" {
+				ops = append(ops, ".hostDefault")
+				continue
+			}
+		case *ast.AssignStmt:
+			if len(v.Lhs) == 2 && len(v.Rhs) == 1 && x.src(v.Lhs[1]) == "err" &&
+				x.src(v.Rhs[0]) == "http.NewRequest(reqParts.Method, reqParts.URL, "+reader+")" && x.src(v.Lhs[0]) == "req" {
+				ops = append(ops, ".newRequest")
+				continue
+			}
+			if len(v.Lhs) == 1 && v.Tok == token.ASSIGN && x.src(v.Lhs[0]) == "req.URL.Host" && x.src(v.Rhs[0]) == "g.base.Config.TargetResolved" {
+				ops = append(ops, ".urlHost")
+				continue
+			}
+		case *ast.RangeStmt:
+			if x.src(v.X) == "reqParts.Headers" && v.Key != nil && v.Value != nil {
+				k, val := x.src(v.Key), x.src(v.Value)
+				var hops []string
+				okAll := true
+				for _, b := range v.Body.List {
+					if is, ok := b.(*ast.IfStmt); ok && is.Init == nil && is.Else == nil {
+						if c, ok := is.Cond.(*ast.CallExpr); ok && x.src(c.Fun) == "strings.EqualFold" && len(c.Args) == 2 {
+							name, isConst := "", false
+							if x.src(c.Args[0]) == k {
+								name, isConst = x.strConst(c.Args[1])
+							} else if x.src(c.Args[1]) == k {
+								name, isConst = x.strConst(c.Args[0])
+							}
+							if isConst {
+								hops = append(hops, fmt.Sprintf("(.ifHost %q)", name))
+								for _, bb := range is.Body.List {
+									switch {
+									case x.src(bb) == "req.Host = "+val:
+										hops = append(hops, ".setHost")
+									case x.src(bb) == "continue":
+										hops = append(hops, ".next")
+									default:
+										okAll = false
+										x.fail(bb, "statement of the Host guard: %s", x.src(bb))
+									}
+								}
+								hops = append(hops, ".endIf")
+								continue
+							}
+						}
+					}
+					if x.src(b) == "req.Header.Set("+k+", "+val+")" {
+						hops = append(hops, ".set")
+						continue
+					}
+					okAll = false
+					x.fail(b, "statement of the header loop: %s", x.src(b))
+				}
+				if okAll {
+					ops = append(ops, "(.headers ["+strings.Join(hops, ", ")+"])")
+					continue
+				}
+			}
+		case *ast.ReturnStmt:
+			if len(v.Results) == 2 && x.src(v.Results[0]) == "req" && (x.src(v.Results[1]) == "err" || x.src(v.Results[1]) == "nil") {
+				ops = append(ops, ".ret")
+				continue
+			}
+		}
+		return x.fail(s, "statement of prepareRequest: %s", x.src(s))
+	}
+	return fmt.Sprintf("/-- regenerated from `%s` method `prepareRequest`: one instruction per statement -/\ndef prepCode : List PrepOp :=\n  [%s]\n",
+		x.rel(fd), strings.Join(ops, ", "))
+}
+
+// mwtTail: in `shoot`, `startAt := time.Now()` stands before the loop over the requests, and after the loop
+// `spent := time.Since(startAt); if <cond on ammo.MinWaitingTime, spent> { time.Sleep(<dur>) }; return nil`.
+func (x *c15flowX) mwtTail(fd *ast.FuncDecl) string {
+	x.ctx = "shoot"
+	startV, spentV := "", ""
+	stage := 0 // 0 before startAt, 1 startAt seen, 2 loop seen, 3 spent seen, 4 pause seen
+	out := ""
+	for _, s := range fd.Body.List {
+		switch v := s.(type) {
+		case *ast.AssignStmt:
+			if len(v.Lhs) == 1 && len(v.Rhs) == 1 && v.Tok == token.DEFINE {
+				if x.src(v.Rhs[0]) == "time.Now()" && stage == 0 {
+					startV = x.src(v.Lhs[0])
+					stage = 1
+				}
+				if stage == 2 && x.src(v.Rhs[0]) == "time.Since("+startV+")" {
+					spentV = x.src(v.Lhs[0])
+					stage = 3
+				}
+			}
+		case *ast.RangeStmt:
+			if x.src(v.X) == "ammo.Requests" {
+				if stage != 1 {
+					return x.fail(s, "the loop over the requests does not follow `startAt := time.Now()`")
+				}
+				stage = 2
+			}
+		case *ast.IfStmt:
+			if stage == 3 && v.Init == nil && v.Else == nil && len(v.Body.List) == 1 {
+				if es, ok := v.Body.List[0].(*ast.ExprStmt); ok {
+					if n, c := x.callName(es.X); n == "time.Sleep" && len(c.Args) == 1 {
+						x.vars = map[string]string{"ammo.MinWaitingTime": "mwt", spentV: "spent"}
+						cond := x.expr(v.Cond, nil)
+						d := x.expr(c.Args[0], nil)
+						x.vars = nil
+						out = fmt.Sprintf("/-- regenerated from `%s` method `shoot`: after the loop over the steps (reached only when no step failed), with `spent` measured from the start of the shot -/\ndef mwtPause (mwt spent : Int) : Option Int := if %s then some %s else none\n", x.rel(fd), cond, d)
+						stage = 4
+					}
+				}
+			}
+		}
+	}
+	if stage != 4 {
+		return x.fail(fd, "expected `startAt := time.Now()`, the loop, `spent := time.Since(startAt)`, `if … { time.Sleep(…) }` (stage %d)", stage)
+	}
+	return out
+}
+
 func c15flowExtra(t *tr) string {
 	const (
 		pMp   = "github.com/yandex/pandora/lib/mp"
@@ -1205,6 +1366,10 @@ func c15flowExtra(t *tr) string {
 	}
 	if fd := need(pk[pGun], "ScenarioGun", "shoot"); fd != nil {
 		b.WriteString(xg.shootLoop(fd) + "\n")
+		b.WriteString(xg.mwtTail(fd) + "\n")
+	}
+	if fd := need(pk[pGun], "ScenarioGun", "prepareRequest"); fd != nil {
+		b.WriteString(xg.prepCode(fd) + "\n")
 	}
 	xc := c15flowNew(t, pk[pCfg], "config/decode.go")
 	if fd := need(pk[pCfg], "", "ParseShootName"); fd != nil {
